@@ -279,6 +279,15 @@ static void polys(bool thorough)
             bool rev_ok = memcmp(s2, b, sizeof(a_real) * (size_t)len) == 0;
             a_poly_swap(s2, (a_size)len);
             bool inv_ok = memcmp(s2, a, sizeof(a_real) * (size_t)len) == 0;
+            // the pointer-range form reverses [first, last) likewise
+            if (len > 0)
+            {
+                a_real s3[10];
+                s3[0] = (a_real)-777; s3[len + 1] = (a_real)-777;
+                memcpy(s3 + 1, a, sizeof(a_real) * (size_t)len);
+                a_poly_swap_(s3 + 1, s3 + 1 + len);
+                if (memcmp(s3 + 1, b, sizeof(a_real) * (size_t)len) != 0 || s3[0] != (a_real)-777 || s3[len + 1] != (a_real)-777) { rev_ok = false; }
+            }
             ++n;
             std::string in = "{\"n\":" + std::to_string(len) + ",\"code\":" + std::to_string(code) + "}";
             std::string ncls = len == 0 ? "n=0" : len == 1 ? "n=1" : "n>1";
